@@ -255,6 +255,25 @@ const NOTIF_SEND: libc::c_ulong = 0xC018_2101;
 /// Magic first argument of `fcntl` used by the worker as a synchronous
 /// message to the supervisor (the syscall is answered, never executed).
 pub const MARK_FD: i32 = -0x5056;
+/// Set by the worker around syscalls the harness itself makes inside a
+/// bracket (fstat of a returned descriptor …): the supervisor lets them pass
+/// unrecorded, un-counted and un-faulted. Notifications are synchronous, so a
+/// plain atomic is race-free.
+pub static HARNESS_SECTION: AtomicBool = AtomicBool::new(false);
+
+pub struct HarnessSection;
+impl HarnessSection {
+    pub fn enter() -> HarnessSection {
+        HARNESS_SECTION.store(true, Ordering::SeqCst);
+        HarnessSection
+    }
+}
+impl Drop for HarnessSection {
+    fn drop(&mut self) {
+        HARNESS_SECTION.store(false, Ordering::SeqCst);
+    }
+}
+
 pub const MARK_ENTER: i32 = 1;
 pub const MARK_EXIT: i32 = 2;
 
@@ -384,6 +403,8 @@ impl Default for Policy {
 struct Shared {
     listener: AtomicI32,
     stop: AtomicBool,
+    /// eventfd that wakes the supervisor's poll when `stop` is set
+    wake: i32,
     calls: Mutex<Vec<CallRec>>,
     fatal: Mutex<Option<String>>,
 }
@@ -481,6 +502,7 @@ impl Gate {
         let shared = Arc::new(Shared {
             listener: AtomicI32::new(-1),
             stop: AtomicBool::new(false),
+            wake: unsafe { libc::eventfd(0, libc::EFD_CLOEXEC | libc::EFD_NONBLOCK) },
             calls: Mutex::new(Vec::new()),
             fatal: Mutex::new(None),
         });
@@ -503,9 +525,10 @@ impl Gate {
                 let mut idx = 0usize;
                 let mut sticky_unwind = false;
                 loop {
-                    let mut pfd = libc::pollfd { fd: lfd, events: libc::POLLIN, revents: 0 };
-                    let r = unsafe { libc::poll(&mut pfd, 1, 20) };
-                    if r == 0 {
+                    let mut pfds = [libc::pollfd { fd: lfd, events: libc::POLLIN, revents: 0 }, libc::pollfd { fd: sh.wake, events: libc::POLLIN, revents: 0 }];
+                    let r = unsafe { libc::poll(pfds.as_mut_ptr(), 2, 200) };
+                    let pfd = pfds[0];
+                    if r == 0 || (r > 0 && pfd.revents == 0) {
                         if sh.stop.load(Ordering::Acquire) {
                             break;
                         }
@@ -557,6 +580,8 @@ impl Gate {
                             }
                             _ => {}
                         }
+                    } else if HARNESS_SECTION.load(Ordering::SeqCst) {
+                        // harness bookkeeping on the worker thread: just continue
                     } else if let Some(c) = cur.as_mut() {
                         let mut sys = decode(idx, &n.data, policy.observe && policy.kinds);
                         idx += 1;
@@ -623,11 +648,14 @@ impl Gate {
     /// After the worker thread has been joined.
     pub fn finish(mut self) -> Result<Vec<CallRec>, String> {
         self.shared.stop.store(true, Ordering::Release);
+        let one: u64 = 1;
+        unsafe { libc::write(self.shared.wake, &one as *const u64 as *const libc::c_void, 8) };
         if let Some(h) = self.sup.take() {
             let _ = h.join();
         }
         let l = self.shared.listener.load(Ordering::Acquire);
         close(l);
+        close(self.shared.wake);
         if let Some(f) = self.shared.fatal.lock().unwrap().take() {
             return Err(f);
         }
